@@ -73,7 +73,8 @@ class Events:
         to_ret = self.ret_events and t["dest"]["l"] == 0 and not t["dest"]["proj"]
         if n in self.epsilon:
             if to_ret:
-                o = ("call", n, tuple(self.roles.org.of_operand(a, bi, "t") for a in t["args"]))
+                args = tuple(self.roles.org.of_operand(a, bi, "t") for a in t["args"])
+                o = ("clone", args[0]) if n == "core::clone::Clone::clone" and len(args) == 1 else ("call", n, args)
                 return "RET(%s)" % self.roles.of_origin(o)
             return None
         roles = [self.roles.of_operand(a, bi) for a in t["args"]]
@@ -83,6 +84,7 @@ class Events:
         return lab
 
     ret_events = True
+    set_events = False
 
     def stmt(self, bi, si, s):
         if self.stmt_events:
@@ -92,6 +94,11 @@ class Events:
         if self.ret_events and s["k"] == "assign" and s["p"]["l"] == 0 and not s["p"]["proj"]:
             o = self.roles.org.of_rvalue(s["r"], bi, si)
             return "RET(%s)" % self.roles.of_origin(o)
+        if self.set_events and s["k"] == "assign" and s["p"]["proj"] and "deref" in s["p"]["proj"]:
+            # store through a reference (field of *self etc.)
+            dst = self.roles.of_origin(self.roles.org.of_place(s["p"], bi, si))
+            val = self.roles.of_origin(self.roles.org.of_rvalue(s["r"], bi, si))
+            return "SET(%s,%s)" % (dst, val)
         return None
 
     def edge(self, bi, t, s):
